@@ -776,7 +776,7 @@ Token *clangimport::AstNode::createTokens(TokenList &tokenList)
     if (nodeType == ArraySubscriptExpr) {
         Token *array = getChild(0)->createTokens(tokenList);
         Token *bracket1 = addtoken(tokenList, "[");
-        Token *index = children[1]->createTokens(tokenList);
+        Token *index = getChild(1)->createTokens(tokenList);
         Token *bracket2 = addtoken(tokenList, "]");
         bracket1->astOperand1(array);
         bracket1->astOperand2(index);
@@ -787,7 +787,7 @@ Token *clangimport::AstNode::createTokens(TokenList &tokenList)
     if (nodeType == BinaryOperator) {
         Token *tok1 = getChild(0)->createTokens(tokenList);
         Token *binop = addtoken(tokenList, unquote(mExtTokens.back()));
-        Token *tok2 = children[1]->createTokens(tokenList);
+        Token *tok2 = getChild(1)->createTokens(tokenList);
         binop->astOperand1(tok1);
         binop->astOperand2(tok2);
         return binop;
@@ -837,9 +837,9 @@ Token *clangimport::AstNode::createTokens(TokenList &tokenList)
     if (nodeType == ConditionalOperator) {
         Token *expr1 = getChild(0)->createTokens(tokenList);
         Token *tok1 = addtoken(tokenList, "?");
-        Token *expr2 = children[1]->createTokens(tokenList);
+        Token *expr2 = getChild(1)->createTokens(tokenList);
         Token *tok2 = addtoken(tokenList, ":");
-        Token *expr3 = children[2]->createTokens(tokenList);
+        Token *expr3 = getChild(2)->createTokens(tokenList);
         tok2->astOperand1(expr2);
         tok2->astOperand2(expr3);
         tok1->astOperand1(expr1);
@@ -849,7 +849,7 @@ Token *clangimport::AstNode::createTokens(TokenList &tokenList)
     if (nodeType == CompoundAssignOperator) {
         Token *lhs = getChild(0)->createTokens(tokenList);
         Token *assign = addtoken(tokenList, getSpelling());
-        Token *rhs = children[1]->createTokens(tokenList);
+        Token *rhs = getChild(1)->createTokens(tokenList);
         assign->astOperand1(lhs);
         assign->astOperand2(rhs);
         return assign;
@@ -863,7 +863,7 @@ Token *clangimport::AstNode::createTokens(TokenList &tokenList)
         return nullptr;
     }
     if (nodeType == ConstantExpr)
-        return children.back()->createTokens(tokenList);
+        return getChild(children.size() - 1)->createTokens(tokenList);
     if (nodeType == ContinueStmt)
         return addtoken(tokenList, "continue");
     if (nodeType == CStyleCastExpr) {
@@ -911,7 +911,7 @@ Token *clangimport::AstNode::createTokens(TokenList &tokenList)
         Token *forToken = addtoken(tokenList, "for");
         Token *par1 = addtoken(tokenList, "(");
         AstNodePtr varDecl;
-        if (children[6]->nodeType == DeclStmt)
+        if (getChild(6)->nodeType == DeclStmt)
             varDecl = getChild(6)->getChild(0);
         else
             varDecl = getChild(5)->getChild(0);
@@ -1016,7 +1016,7 @@ Token *clangimport::AstNode::createTokens(TokenList &tokenList)
     if (nodeType == DefaultStmt) {
         addtoken(tokenList, "default");
         addtoken(tokenList, ":");
-        children.back()->createTokens(tokenList);
+        getChild(children.size() - 1)->createTokens(tokenList);
         return nullptr;
     }
     if (nodeType == DoStmt) {
@@ -1024,7 +1024,7 @@ Token *clangimport::AstNode::createTokens(TokenList &tokenList)
         createScope(tokenList, ScopeType::eDo, getChild(0), tokenList.back());
         Token *tok1 = addtoken(tokenList, "while");
         Token *par1 = addtoken(tokenList, "(");
-        Token *expr = children[1]->createTokens(tokenList);
+        Token *expr = getChild(1)->createTokens(tokenList);
         Token *par2 = addtoken(tokenList, ")");
         par1->link(par2);
         par2->link(par1);
@@ -1089,9 +1089,9 @@ Token *clangimport::AstNode::createTokens(TokenList &tokenList)
         Token *par1 = addtoken(tokenList, "(");
         Token *expr1 = getChild(0) ? children[0]->createTokens(tokenList) : nullptr;
         Token *sep1 = addtoken(tokenList, ";");
-        Token *expr2 = children[2] ? children[2]->createTokens(tokenList) : nullptr;
+        Token *expr2 = getChild(2) ? children[2]->createTokens(tokenList) : nullptr;
         Token *sep2 = addtoken(tokenList, ";");
-        Token *expr3 = children[3] ? children[3]->createTokens(tokenList) : nullptr;
+        Token *expr3 = getChild(3) ? children[3]->createTokens(tokenList) : nullptr;
         Token *par2 = addtoken(tokenList, ")");
         par1->link(par2);
         par2->link(par1);
@@ -1101,7 +1101,7 @@ Token *clangimport::AstNode::createTokens(TokenList &tokenList)
         sep1->astOperand2(sep2);
         sep2->astOperand1(expr2);
         sep2->astOperand2(expr3);
-        createScope(tokenList, ScopeType::eFor, children[4], forToken);
+        createScope(tokenList, ScopeType::eFor, getChild(4), forToken);
         return nullptr;
     }
     if (nodeType == FunctionDecl) {
@@ -1130,12 +1130,12 @@ Token *clangimport::AstNode::createTokens(TokenList &tokenList)
         AstNodePtr thenCode;
         AstNodePtr elseCode;
         if (children.size() == 2) {
-            cond = children[children.size() - 2];
-            thenCode = children[children.size() - 1];
+            cond = getChild(children.size() - 2);
+            thenCode = getChild(children.size() - 1);
         } else {
-            cond = children[children.size() - 3];
-            thenCode = children[children.size() - 2];
-            elseCode = children[children.size() - 1];
+            cond = getChild(children.size() - 3);
+            thenCode = getChild(children.size() - 2);
+            elseCode = getChild(children.size() - 1);
         }
 
         Token *iftok = addtoken(tokenList, "if");
@@ -1264,13 +1264,13 @@ Token *clangimport::AstNode::createTokens(TokenList &tokenList)
     if (nodeType == SwitchStmt) {
         Token *tok1 = addtoken(tokenList, "switch");
         Token *par1 = addtoken(tokenList, "(");
-        Token *expr = children[children.size() - 2]->createTokens(tokenList);
+        Token *expr = getChild(children.size() - 2)->createTokens(tokenList);
         Token *par2 = addtoken(tokenList, ")");
         par1->link(par2);
         par2->link(par1);
         par1->astOperand1(tok1);
         par1->astOperand2(expr);
-        createScope(tokenList, ScopeType::eSwitch, children.back(), tok1);
+        createScope(tokenList, ScopeType::eSwitch, getChild(children.size() - 1), tok1);
         return nullptr;
     }
     if (nodeType == TypedefDecl) {
@@ -1310,8 +1310,8 @@ Token *clangimport::AstNode::createTokens(TokenList &tokenList)
     if (nodeType == VarDecl)
         return createTokensVarDecl(tokenList);
     if (nodeType == WhileStmt) {
-        AstNodePtr cond = children[children.size() - 2];
-        AstNodePtr body = children.back();
+        AstNodePtr cond = getChild(children.size() - 2);
+        AstNodePtr body = getChild(children.size() - 1);
         Token *whiletok = addtoken(tokenList, "while");
         Token *par1 = addtoken(tokenList, "(");
         par1->astOperand1(whiletok);
